@@ -32,8 +32,8 @@ COVERED (all ten components, every point of the stated domain)
   derivatives of the module's metric is PARTIAL — under the explicit hypothesis (already used by
   `K_is_metric_rate_Szekeres_partial`) that `integrated_part` is an antiderivative of `part_to_integrate`.
   Schwarzschild `null_ray_exp_out` = divergence of the unit outward normal of the coordinate spheres.
-NOT COVERED: the hypergeometric antiderivative itself (not in Mathlib; numerical sentinel);
-  ICPertFLRW constraints.
+SINCE PROVEN ELSEWHERE: the hypergeometric antiderivative itself and, with it, `einstein_Szekeres` without hypothesis
+  (Props/C17Hyp.lean); the ICPertFLRW constraints at first order (Props/C17Pert.lean).
 -/
 import AurelVerif.Lemmas.C17EinFLRW
 import AurelVerif.Lemmas.C17EinConfFlat
